@@ -53,7 +53,7 @@ def main(run):
                 "kappa = sqrt(1+mean^2/var) (zero-variance inputs: absolute 4n*eps*mean^2), everything finite; SlidingWindowTracker mean / "
                 "variance under the same bounds relative to the CURRENT window (falling magnitudes, huge outliers that left the window); explainer runs "
                 "(IncrementalPFI / IncrementalSage, static and dynamic) driven by such loss sequences executed twice from the same "
-                "generator state, in floats and in exact rationals, importance values within 4*eps*max|loss|*(d+2)*max(n,2/alpha); "
+                "generator state, in floats and in exact rationals (IncrementalPFI: against an independent exact reference computed from the loss sequence), importance values within 4*eps*max|loss|*(d+2)*max(n,2/alpha); "
                 "evaluations = bound comparisons at checkpoints; non-trivial = distinct (pattern, magnitude, offset, length, alpha) "
                 "streams with >= 3 distinct values; the largest observed error/bound ratio is reported")
     run.assumptions = ["bounds are first-order error bounds with a safety factor 4 (DESIGN C20); inputs finite",
@@ -186,12 +186,26 @@ def main(run):
         n_inner = rnd.choice([1, 2, 3])
         steps = 400 if not thorough else 3000
         pattern, mag, offset = rnd.choice(PATTERNS), rnd.choice([1e-8, 1.0, 1e8]), rnd.choice([0.0, 1e3, 1e9])
-        nloss = steps * (2 + d * max(n_inner, 1) + d) + 10
+        nloss = steps * (2 + d * max(n_inner, 4) + d) + 10
         seq = gen(random.Random(rnd.randrange(2 ** 31)), nloss, pattern, mag, offset)
         seed = rnd.randrange(2 ** 31)
         names = [f"f{j}" for j in range(d)]
         results = []
         for exact in (False, True):
+            if exact and cls is IncrementalPFI:
+                # independent exact reference for PFI, straight from the statement: contribution = mean of the n inner losses
+                # of a feature minus the original loss (losses are consumed in call order), then the exact running statistic
+                it = iter(seq)
+                stat = {nm: Fraction(0) for nm in names}
+                a_x = Fraction(alpha)
+                for t in range(1, steps):
+                    n_used = 4 if t % 5 == 4 else n_inner
+                    l0 = Fraction(next(it))
+                    for nm in names:
+                        c = sum(Fraction(next(it)) for _ in range(n_used)) / n_used - l0
+                        stat[nm] = (1 - a_x) * stat[nm] + a_x * c if dyn else stat[nm] + (c - stat[nm]) / t
+                results.append({nm: Q(v) for nm, v in stat.items()})
+                continue
             random.seed(seed)
             np.random.seed(seed)
             it = iter(seq)
@@ -208,7 +222,10 @@ def main(run):
             e = cls(model, loss, names, **kw)
             srnd = random.Random(seed)
             for t in range(steps):
-                e.explain_one({nm: srnd.random() for nm in names}, 0.0)
+                if t % 5 == 4:      # per-call override of the inner-sample count (documented argument)
+                    e.explain_one({nm: srnd.random() for nm in names}, 0.0, n_inner_samples=4)
+                else:
+                    e.explain_one({nm: srnd.random() for nm in names}, 0.0)
             results.append(dict(e.importance_values))
             if not exact:
                 fvar = dict(e.variances)
